@@ -110,12 +110,13 @@ def default_physics():
 
 def set_pipe(m, kind, phys, dia):
     k, rcp = phys["pipe_k"], phys["pipe_rho_cp"]
+    s = phys.get("shank", 0.01856)
     if kind == "SINGLEUTUBE":
-        m.set_single_u_tube_pipe(0.03404, 0.04216, 0.01856, 1.0e-6, k, rcp)
+        m.set_single_u_tube_pipe(0.03404, 0.04216, s, 1.0e-6, k, rcp)
     elif kind == "DOUBLEUTUBEPARALLEL":
-        m.set_double_u_tube_pipe_parallel(0.03404, 0.04216, 0.01856, 1.0e-6, k, rcp)
+        m.set_double_u_tube_pipe_parallel(0.03404, 0.04216, s, 1.0e-6, k, rcp)
     elif kind == "DOUBLEUTUBESERIES":
-        m.set_double_u_tube_pipe_series(0.03404, 0.04216, 0.01856, 1.0e-6, k, rcp)
+        m.set_double_u_tube_pipe_series(0.03404, 0.04216, s, 1.0e-6, k, rcp)
     elif kind == "COAXIAL":
         # scale the standard coaxial geometry so that it fits the borehole
         f = min(1.0, dia / 0.14)
@@ -171,6 +172,27 @@ def set_geometry(m, geom):
                                            max_rotation=geom[5], min_rotation=geom[6], rotate_step=geom[7], property_boundary=geom[8], no_go_boundaries=geom[9])
     else:
         raise ValueError(kind)
+
+
+FLUID_CODES = {"WATER": "WATER", "PROPYLENEGLYCOL": "MPG", "ETHYLENEGLYCOL": "MEG", "METHYLALCOHOL": "MMA", "ETHYLALCOHOL": "MEA"}
+
+
+def independent_fluid(phys):
+    """The fluid the user asked for, built WITHOUT the package's GHEFluid: pygfunction's Fluid with the
+    mixture code of pygfunction's own documentation (MPG, MEG, MMA = methanol, MEA = ethanol)."""
+    from pygfunction.media import Fluid
+
+    f = Fluid(FLUID_CODES[phys["fluid"][0].upper()], phys["fluid"][1], phys.get("fluid_temp", 20.0))
+    # the labels the package's own fluid class carries (no physics in them), so that code which reads them keeps working
+    try:
+        from ghedesigner.enums import FluidType
+
+        f.fluid_type = FluidType[phys["fluid"][0].upper()]
+    except Exception:  # noqa: BLE001
+        f.fluid_type = phys["fluid"][0].upper()
+    f.concentration_percent = phys["fluid"][1]
+    f.temperature = phys.get("fluid_temp", 20.0)
+    return f
 
 
 def media(phys, pipe_kind="SINGLEUTUBE"):
